@@ -772,7 +772,22 @@ func (x *Exec) evalBinary(env *Env, e *EBinary) SV {
 	case "||":
 		return SV{T: Or(x.evalBool(env, e.X), x.evalBool(env, e.Y))}
 	case "==>":
-		return SV{T: Implies(x.evalBool(env, e.X), x.evalBool(env, e.Y))}
+		ante := x.evalBool(env, e.X)
+		// a consequent that names a local which does not exist on this path (e.g. declared in the other branch) is left
+		// unconstrained: the implication is then provable only where the antecedent is false
+		cons := func() (t *Term) {
+			defer func() {
+				if r := recover(); r != nil {
+					if u, ok := r.(unsupported); ok && (strings.Contains(u.msg, "is not allocated at this point") || strings.Contains(u.msg, "no live local")) {
+						t = x.freshVar("undef", SBool)
+						return
+					}
+					panic(r)
+				}
+			}()
+			return x.evalBool(env, e.Y)
+		}()
+		return SV{T: Implies(ante, cons)}
 	case "<==>":
 		return SV{T: Iff(x.evalBool(env, e.X), x.evalBool(env, e.Y))}
 	case "in":
